@@ -376,6 +376,12 @@ func main() {
 		os.Exit(3)
 	}
 	writeIfChanged(filepath.Join(*out, "Layouts.lean"), lb.String())
+	var cb strings.Builder
+	cb.WriteString("-- GENERATED by /verif/harness/cmd/extract from /repo's zmsg.go (do not edit): the per-type pack / unpack bodies\n-- translated into the codec algebra of DnsModel/Codec.lean\nimport DnsModel.CodecBase\nnamespace Dns.Gen\nopen Dns\n")
+	cb.WriteString(leanCodecs("packCodecs", pk, false))
+	cb.WriteString(leanCodecs("unpackCodecs", up, true))
+	cb.WriteString("end Dns.Gen\n")
+	writeIfChanged(filepath.Join(*out, "Codecs.lean"), cb.String())
 	dp := p.dupPlans()
 	if len(failures) > 0 {
 		for _, f := range failures {
